@@ -593,6 +593,143 @@ def directed_cases(rng: random.Random, per: int) -> list:
     return out
 
 
+# ====================================================================== WatchdogReloaderLoop (only when watchdog is importable)
+WD_TYPES = ["modified", "created", "deleted", "moved_over", "moved_away", "closed", "opened", "closed_no_write"]
+
+
+def watchdog_available() -> bool:
+    try:
+        __import__("watchdog.observers")
+        return True
+    except ImportError:
+        return False
+
+
+class _StubObserver:
+    """records what the loop asks of the observer; no thread, no inotify"""
+
+    def __init__(self, events):
+        self.events = events
+        self.n = 0
+
+    def schedule(self, handler, path, recursive=False, **kw):
+        self.n += 1
+        self.events.append(ev("wd_watch", "recursive" if recursive else "flat", c=self.n, a=[cps(os.fspath(path))]))
+        return ("watch", self.n)
+
+    def unschedule(self, watch):
+        self.events.append(ev("wd_unwatch", c=watch[1] if isinstance(watch, tuple) else 0))
+
+    def start(self):
+        self.events.append(ev("wd_start"))
+
+    def stop(self):
+        self.events.append(ev("wd_stop"))
+
+    def join(self, *a):
+        pass
+
+
+def run_wd(case: dict, tmp: str) -> dict:
+    """the real WatchdogReloaderLoop with a stub observer: synthetic watchdog events are dispatched to the loop's real
+    event handler while its real run() 'sleeps'"""
+    from werkzeug import _reloader as R
+    import watchdog.events as we
+
+    rn = Runner(dict(case, sched=[], mode="wd"), tmp)
+    rn.rng_order = random.Random(case.get("order", 0))
+    events = rn.events
+    batches = [list(b) for b in case["batches"]]
+    pos = [0]
+
+    def make(x):
+        path = rn.paths[x["f"] - 1]
+        tmpname = os.path.join(os.path.dirname(path), ".tmp-x06~")
+        t = x["type"]
+        if t == "moved_over":
+            return we.FileMovedEvent(tmpname, path)
+        if t == "moved_away":
+            return we.FileMovedEvent(path, tmpname)
+        cls = {"modified": we.FileModifiedEvent, "created": we.FileCreatedEvent, "deleted": we.FileDeletedEvent,
+               "closed": we.FileClosedEvent, "opened": we.FileOpenedEvent, "closed_no_write": we.FileClosedNoWriteEvent}[t]
+        return cls(path)
+
+    try:
+        rn.setup_fs()
+        del events[:]          # the initial state is given by "exists" below
+        restore = rn.install(R)
+        loop = None
+        try:
+            def sleep(secs):
+                ms = secs * 1000
+                events.append(ev("sleep", m=int(ms) if ms == int(ms) and 0 <= ms < 2 ** 30 else -1))
+                if pos[0] >= len(batches):
+                    raise Stop
+                b = batches[pos[0]]
+                pos[0] += 1
+                for x in b:
+                    events.append(ev("wd_event", x["type"], x["f"]))
+                    loop.event_handler.dispatch(make(x))
+
+            R.time = _Shim(__import__("time"), sleep=sleep)
+            try:
+                loop = R.WatchdogReloaderLoop(**rn.loop_args())
+                orig_trigger = loop.trigger_reload
+
+                def trigger(filename):
+                    events.append(ev("wd_trigger", f=rn.index.get(os.path.abspath(os.fsdecode(filename)), -1)))
+                    return orig_trigger(filename)
+                # the handler closed over the bound method at construction: wrap what it calls
+                loop.observer = _StubObserver(events)
+                inner = loop.event_handler.on_any_event
+
+                def on_any_event(event):
+                    before = loop.should_reload
+                    inner(event)
+                    if loop.should_reload and not before:
+                        events.append(ev("wd_flag"))
+                loop.event_handler.on_any_event = on_any_event
+                with loop:
+                    loop.run()
+                events.append(ev("end", "return"))
+            except Stop:
+                events.append(ev("end"))
+            except SystemExit as x:
+                events.append(ev("exit", c=_code(x)))
+            except Exception as x:
+                events.append(ev("end", type(x).__name__))
+        finally:
+            restore()
+        return {"op": "wd", "interval": case.get("interval", 1000),
+                "files": [{"kind": f["kind"], "path": cps(p), "exists": bool(f["init"])} for f, p in zip(case["files"], rn.paths)],
+                "pats": [cps(p.replace("{B}", rn.base)) for p in case["pats"]], "ev": events}
+    finally:
+        rn.cleanup()
+
+
+def wd_cases(rng: random.Random, n: int) -> list:
+    out = []
+    for _ in range(n):
+        nf = rng.randint(1, 5)
+        files = [{"kind": rng.choice(WATCHED_KINDS) if rng.random() < 0.7 else rng.choice(UNWATCHED_KINDS), "init": rng.choice([1, 1, 1, 0])}
+                 for _ in range(nf)]
+        pats = rng.sample(WD_PATTERNS, rng.choice([0, 0, 1, 1, 2]))
+        batches = []
+        for _ in range(rng.randint(1, 6)):
+            b = []
+            for _ in range(rng.choice([0, 1, 1, 1, 2, 3])):
+                t = rng.choice(WD_TYPES[6:]) if rng.random() < 0.45 else rng.choice(WD_TYPES[:6])
+                b.append({"type": t, "f": rng.randint(1, nf)})
+            batches.append(b)
+        out.append({"files": files, "pats": pats, "batches": batches, "interval": rng.choice([1000, 250, 2000]), "order": rng.randrange(1000)})
+    return out
+
+
+# patterns on which fnmatch (documented for exclude_patterns) and watchdog's own matching of ignore patterns agree
+WD_PATTERNS = ["*.cfg", "*/conf/*", "*/mods/m?.py", "*/root/p[12].py", "*.zip", "*/xdir/*", "*/pkg/*", "*.py[co]", "*e1.cfg",
+               "*m2.py", "{B}/root/p1.py", "{B}/conf/e?.cfg", "*.txt", "*/other/*", "*[0-9].py", "*q?.py", "*/libs/z[!1].zip"]
+
+
 # ====================================================================== _get_args_for_reloading
 ARG_KINDS = ["modern", "script", "script_abs", "module_main", "module_sub", "module_top", "pydevd"]
 
